@@ -1018,3 +1018,11 @@ def run(ctx):
         run_async(ctx, prog, c)
     if not only or "G2" in only:
         g2(ctx, prog, c)
+    if not only or any(o.startswith("U3") for o in only):
+        # E3 assumes the sequential code of each stage does not panic (a panic in the stage-1 goroutine leaves stage 2 blocked on the
+        # channel: "both stages always terminate" fails): the obligations of the real stage-1 driver on free layouts (U3, shared with
+        # C01/C05/C06) are run under this id as the composition step
+        from .. import lemmas_stage2
+        lvl = ctx.level
+        run_lemmas(ctx, lemmas_stage2.u3_lemmas(ctx.tier))
+        ctx.level = lvl
